@@ -59,3 +59,61 @@ func VH_C10_ValidateV2() {
 	ms.ApplyV2Transaction(txn)
 	vh.Reach("applied")
 }
+
+// v2, two transactions of one block: the first creates elements of some kind,
+// the second spends an ephemeral (unassigned leaf index) siacoin or siafund
+// parent with an arbitrary ID, in particular the ID of anything the first one
+// created (attestation, contract, output of the other currency). Validation
+// and application never panic; from the ephemeral-output height on, an accepted
+// ephemeral siacoin parent is exactly an output created earlier in the block.
+func VH_C10_V2BlockEphemeral() {
+	vh.NoPanic()
+	_, s := vhWorld("w")
+	vh.Assume(s.childHeight() >= s.Network.HardforkV2.AllowHeight)
+	above := vh.Choice("era", 2) == 1
+	if above {
+		vh.Assume(s.childHeight() >= s.Network.HardforkV2.EphemeralOutputHeight)
+	} else {
+		vh.Assume(s.childHeight() < s.Network.HardforkV2.EphemeralOutputHeight)
+	}
+	masks := []int{1 << 7, 3, 12, 1 | 1<<4}
+	full := vh.Param("ephfull", 0) == 1
+	if !full {
+		masks = masks[:2]
+	}
+	t1 := vhV2Txn("t1", masks[vh.Choice("first", len(masks))], 1, 2, 0, false)
+	vhGenuineV2(s, &t1)
+	ms := NewMidState(s)
+	if ValidateV2Transaction(ms, t1) != nil {
+		return
+	}
+	ms.ApplyV2Transaction(t1)
+	vh.Reach("first-applied")
+	kind := 0
+	if full {
+		kind = vh.Choice("second", 2)
+	}
+	t2 := vhV2Txn("t2", []int{3, 12}[kind], 1, 2, 0, true)
+	if kind == 1 {
+		vh.Assume(t2.SiafundInputs[0].Parent.SiafundOutput.Value <= 10000)
+	}
+	err := ValidateV2Transaction(ms, t2)
+	if err != nil {
+		vh.Reach("second-rejected")
+		return
+	}
+	vh.Reach("second-accepted")
+	if above && kind == 0 {
+		p := t2.SiacoinInputs[0].Parent
+		found := false
+		for _, d := range ms.sces {
+			if vh.And(d.Created, d.SiacoinElement.ID == p.ID, d.SiacoinElement.SiacoinOutput == p.SiacoinOutput, d.SiacoinElement.MaturityHeight == p.MaturityHeight) {
+				found = true
+			}
+		}
+		vh.Assert(found, "ephemeral siacoin parent accepted that is not an output created earlier in the block")
+	}
+	vh.Assert(vh.Implies(above, kind == 0), "ephemeral siafund parent accepted at or after the ephemeral-output height")
+	ms.ApplyV2Transaction(t2)
+	vh.Reach("second-applied")
+}
